@@ -49,7 +49,7 @@ func runC02(c *Ctx) {
 		maxN = 7
 	}
 	c.Exhaustive = true
-	c.Rule = fmt.Sprintf("every vector in ({matched,unmatched} x {allow,deny,other})^n for 1 <= n <= %d and each of the 5 effect expressions, driven through the real Enforce/EnforceEx/BatchEnforce on a model whose matcher is r.sub == p.sub (exhaustive); n = 0 (empty policy, also after the last rule was removed) for each effect; every ordered pair of distinct effects as e / e2 with the request made through EnforceContext (e2 must decide), vectors of length <= 2; every direct MergeEffects call on arrays of length <= 3 at every index; non-trivial = at least one matched rule; distinct = (effect, vector)", maxN)
+	c.Rule = fmt.Sprintf("every vector in ({matched,unmatched} x {allow,deny,other})^n for 1 <= n <= %d and each of the 5 effect expressions, driven through the real Enforce/EnforceEx/BatchEnforce on a model whose matcher is r.sub == p.sub (exhaustive), each followed (n <= 4) on the same enforcer by EnforceWithMatcher / EnforceExWithMatcher / BatchEnforceWithMatcher with a custom matcher that selects one rule by its object; n = 0 (empty policy, also after the last rule was removed) for each effect; every ordered pair of distinct effects as e / e2 with the request made through EnforceContext (e2 must decide; both as a struct literal over r/p/m and as NewEnforceContext(\"2\") over a complete second set r2/p2/e2/m2), vectors of length <= 2; every direct MergeEffects call on arrays of length <= 3 at every index; non-trivial = at least one matched rule; distinct = (effect, vector)", maxN)
 
 	for _, k := range effectKinds {
 		e, err := casbin.NewEnforcer(c02Model(k.expr))
@@ -98,6 +98,36 @@ func runC02(c *Ctx) {
 			oks, err3 := e.BatchEnforce([][]interface{}{{"alice", "x", "read"}})
 			if err2 != nil || err3 != nil || ok2 != ok || len(oks) != 1 || oks[0] != ok {
 				c.Direct("Enforce / EnforceEx / BatchEnforce disagree", op)
+			}
+			// the WithMatcher entry points on the same enforcer, right after the call with the model's matcher: a
+			// custom matcher that selects exactly the rule whose object is asked for, whatever its subject, so the
+			// vector it sees is (rule j matched with its effect, every other rule unmatched)
+			if n <= 4 {
+				j := c.Evals % n
+				mnames := make([]string, n)
+				for i, cell := range vec {
+					if i == j {
+						mnames[i] = cellNames[cell%3]
+					} else {
+						mnames[i] = cellNames[3+cell%3]
+					}
+				}
+				okm, explm, errm := e.EnforceExWithMatcher("r.obj == p.obj", "zed", fmt.Sprintf("o%d", j), "read")
+				idxm := -1
+				if len(explm) > 0 {
+					fmt.Sscanf(explm[1], "o%d", &idxm)
+				}
+				obsm := fmt.Sprintf("%v %d", okm, idxm)
+				if errm != nil {
+					obsm = "err"
+				}
+				c.W.Op(fmt.Sprintf("enfvec %s %s", k.name, strings.Join(mnames, "")), obsm)
+				okw, errw := e.EnforceWithMatcher("r.obj == p.obj", "zed", fmt.Sprintf("o%d", j), "read")
+				okb, errb := e.BatchEnforceWithMatcher("r.obj == p.obj", [][]interface{}{{"zed", fmt.Sprintf("o%d", j), "read"}})
+				if errw != nil || errb != nil || okw != okm || len(okb) != 1 || okb[0] != okm {
+					c.Direct("EnforceWithMatcher / EnforceExWithMatcher / BatchEnforceWithMatcher disagree", op)
+				}
+				c.Count("custom_matcher_calls", 1)
 			}
 			if matchedAny {
 				c.Nontrivial(op)
@@ -180,6 +210,15 @@ func runC02(c *Ctx) {
 				panic(err)
 			}
 			ctx := casbin.EnforceContext{RType: "r", PType: "p", EType: "e2", MType: "m"}
+			// the same through the constructor: a complete second set of definitions, selected by NewEnforceContext("2")
+			m.AddDef("r", "r2", "sub, obj, act")
+			m.AddDef("p", "p2", "sub, obj, act, eft")
+			m.AddDef("m", "m2", "r2.sub == p2.sub")
+			e2, err := casbin.NewEnforcer(m)
+			if err != nil {
+				panic(err)
+			}
+			ctxNew := casbin.NewEnforceContext("2")
 			for code := 0; code < 6+36; code++ {
 				var vec []int
 				if code < 6 {
@@ -207,6 +246,20 @@ func runC02(c *Ctx) {
 				c.W.Op(fmt.Sprintf("enfvec %s %s", kb.name, strings.Join(names, "")), obs)
 				c.Evals++
 				c.Count("second_effect_definition_calls", 1)
+				e2.ClearPolicy()
+				_, _ = e2.AddNamedPolicies("p2", rules)
+				ok, explain, err = e2.EnforceEx(ctxNew, "alice", "x", "read")
+				idx = -1
+				if len(explain) > 0 {
+					fmt.Sscanf(explain[1], "o%d", &idx)
+				}
+				obs = fmt.Sprintf("%v %d", ok, idx)
+				if err != nil {
+					obs = "err"
+				}
+				c.W.Op(fmt.Sprintf("enfvec %s %s", kb.name, strings.Join(names, "")), obs)
+				c.Evals++
+				c.Count("second_definition_set_calls", 1)
 			}
 		}
 	}
